@@ -111,7 +111,8 @@ Theorem submit_same_answer cfg s s' h pick W p' :
   wf (nodes s) -> wf (nodes s') -> Kh (nodes s') ->
   op_ok s (OSubmit h pick) ->
   find_mem (nodes s') (h_prev h) = Some p' ->
-  has_cont_child (nodes s') (h_prev h) = has_cont_child (nodes s) (h_prev h) ->
+  (has_cont_child (nodes s') (h_prev h) = has_cont_child (nodes s) (h_prev h) \/
+   forall p, find_mem (nodes s) (h_prev h) = Some p -> (tip_height s - n_height p <= c_maxdepth cfg)%Z) ->
   snd (submit cfg s' h pick) = snd (submit cfg s h pick).
 Proof.
   intros HR HW Ht Hi Hw Hw' HK [Hnz Hcons] Hp' Hflag. unfold submit.
@@ -146,15 +147,24 @@ Proof.
     destruct Hdup as [_ H2]. specialize (H2 eq_refl). discriminate.
   - destruct (find_mem (nodes s) (h_hash h)) as [d|] eqn:Ed; [destruct Hdup as [H1 _]; specialize (H1 eq_refl); discriminate|].
     rewrite Hi. destruct (memN (h_hash h) (invalid s)); [reflexivity|].
-    rewrite Hflag. unfold tip_height. rewrite Ht, (height_of_rel W _ _ _ HR), (rel_height _ _ _ Fp).
-    destruct (has_cont_child (nodes s) (h_prev h) && (c_maxdepth cfg <? height_of (nodes s) (tip s) - n_height p)%Z);
-      [reflexivity|].
+    unfold tip_height. rewrite Ht, (height_of_rel W _ _ _ HR), (rel_height _ _ _ Fp).
+    set (f' := has_cont_child (nodes s') (h_prev h)). set (f := has_cont_child (nodes s) (h_prev h)).
+    assert (Hdeep : f' && (c_maxdepth cfg <? height_of (nodes s) (tip s) - n_height p)%Z =
+                    f && (c_maxdepth cfg <? height_of (nodes s) (tip s) - n_height p)%Z).
+    { destruct Hflag as [Hf|Hin]; [unfold f', f; rewrite Hf; reflexivity|].
+      specialize (Hin p Hp). unfold tip_height in Hin.
+      replace (c_maxdepth cfg <? height_of (nodes s) (tip s) - n_height p)%Z with false
+        by (symmetry; apply Z.ltb_ge; exact Hin).
+      rewrite !andb_false_r. reflexivity. }
+    rewrite Hdeep.
+    destruct (f && (c_maxdepth cfg <? height_of (nodes s) (tip s) - n_height p)%Z); [reflexivity|].
     cbn [snd]. rewrite (rel_work _ _ _ Fp).
-    set (n := mkNode h (n_height p + 1) (n_work p + work_of_bits (h_bits h)) true (has_cont_child (nodes s) (h_prev h))).
-    assert (HR1 : Forall2 (rel W) (n :: nodes s) (n :: nodes s')).
+    set (n := mkNode h (n_height p + 1) (n_work p + work_of_bits (h_bits h)) true f).
+    set (n' := mkNode h (n_height p + 1) (n_work p + work_of_bits (h_bits h)) true f').
+    assert (HR1 : Forall2 (rel W) (n :: nodes s) (n' :: nodes s')).
     { constructor; [|exact HR]. split; [reflexivity|]. split; [auto|]. intros _ H. cbn in H. discriminate. }
-    assert (HW1 : W <= max_work_mem (n :: nodes s')).
-    { cbn [max_work_mem fold_right]. fold (max_work_mem (nodes s')). cbn [n n_mem]. lia. }
+    assert (HW1 : W <= max_work_mem (n' :: nodes s')).
+    { cbn [max_work_mem fold_right]. fold (max_work_mem (nodes s')). cbn [n' n_mem]. lia. }
     rewrite (choose_tip_rel W _ _ _ _ HR1 HW1).
     set (t1 := choose_tip (n :: nodes s) (tip s) pick).
     unfold announce. rewrite !(chain_of_rel W _ _ _ HR1). reflexivity.
@@ -263,7 +273,7 @@ Proof.
   destruct Hp' as [p' Hp'].
   apply (submit_same_answer cfg s (fst (clean s d)) h pick (max_work_mem (nodes s)) p'); auto.
   - destruct (clean_K (nodes s) (tip s) d Hw HK) as [HKh _]. exact HKh.
-  - unfold clean. cbn [fst nodes]. apply has_cont_child_clean_side; assumption.
+  - left. unfold clean. cbn [fst nodes]. apply has_cont_child_clean_side; assumption.
 Qed.
 
 Theorem clean_then_extend_tip cfg s d h pick : cfg_ok cfg -> Inv s -> K (nodes s) -> (0 <= d)%Z ->
@@ -277,6 +287,43 @@ Proof.
   apply (submit_same_answer cfg s (fst (clean s d)) h pick (max_work_mem (nodes s)) T'); auto.
   - destruct (clean_K (nodes s) (tip s) d Hw HK) as [HKh _]. exact HKh.
   - unfold find_mem. rewrite Hprev. change (tip s) with (tip (fst (clean s d))). rewrite HT', HTm'. reflexivity.
-  - rewrite Hprev. change (tip s) with (tip (fst (clean s d))) at 1.
+  - left. rewrite Hprev. change (tip s) with (tip (fst (clean s d))) at 1.
     rewrite (tip_childless _ HI'), (tip_childless _ HI). reflexivity.
+Qed.
+
+(* every attachment within the fork-depth limit: the parent is held in memory (on the best chain or
+   off it) no deeper below the tip than the fork-depth limit, and the prune depth is at least that
+   limit (10000 against 144 in the implementation's configuration) - then the parent survives the
+   Clean in memory, and the verdict and announcement are the same whether or not the repository
+   was cleaned first.  This includes a header that starts a NEW fork at a best-chain header, for
+   which the branch-continuation flags (rearranged by Clean on the best chain) are irrelevant
+   because the depth rule they guard is satisfied anyway.  Beyond the limit the statement is false
+   of the model and of the code (a new fork at the end of a branch that lost its continuation to
+   an invalidation is a continuation before the Clean and a too-deep new branch after it), and
+   the property does not claim it. *)
+Theorem clean_then_attach_within cfg s d h pick p : cfg_ok cfg -> Inv s -> K (nodes s) ->
+  (c_maxdepth cfg <= d)%Z -> (0 <= d)%Z ->
+  op_ok s (OSubmit h pick) ->
+  find_mem (nodes s) (h_prev h) = Some p -> (tip_height s - n_height p <= c_maxdepth cfg)%Z ->
+  snd (submit cfg (fst (clean s d)) h pick) = snd (submit cfg s h pick).
+Proof.
+  intros Hcfg HI HK Hmd Hd Hok Hp Hwithin. pose proof HI as (Hw & _).
+  destruct (clean_rel s d HI Hd) as [HR HW].
+  pose proof (clean_inv s d HI Hd) as (Hw' & _).
+  destruct (find_mem_some _ _ _ Hp) as [Hpf Hpm]. destruct (find_some _ _ _ Hpf) as [Hpin Hph].
+  assert (Hp' : exists p', find_mem (nodes (fst (clean s d))) (h_prev h) = Some p').
+  { unfold clean. cbn [fst nodes]. rewrite clean_nodes_eq. exists (clean_f (nodes s) (tip s) d p).
+    unfold find_mem. rewrite find_map by apply clean_f_core. rewrite Hpf. cbn [option_map].
+    rewrite clean_f_mem, Hph, Hpm.
+    destruct (is_anc (nodes s) (h_prev h) (tip s)); [|reflexivity].
+    pose proof (prune_height_le (consolidate (nodes s) (tip s)) (tip s) d) as Hpl.
+    rewrite consolidate_eq, height_of_map in Hpl by apply consolidate_f_core.
+    unfold tip_height in Hwithin.
+    replace (prune_height (consolidate (nodes s) (tip s)) (tip s) d <=? n_height p)%Z with true
+      by (symmetry; apply Z.leb_le; rewrite consolidate_eq; lia).
+    reflexivity. }
+  destruct Hp' as [p' Hp'].
+  apply (submit_same_answer cfg s (fst (clean s d)) h pick (max_work_mem (nodes s)) p'); auto.
+  - destruct (clean_K (nodes s) (tip s) d Hw HK) as [HKh _]. exact HKh.
+  - right. intros p0 Hp0. rewrite Hp in Hp0. inversion Hp0; subst p0. exact Hwithin.
 Qed.
